@@ -223,10 +223,49 @@ def oracle_symbolic(out):
                                       f"{'accepted' if want == 'T' else 'rejected'}, observed verdicts {got}", {"expr": expr, "a": a, "b": b, "size": size})
 
 
+def call_argument_cases(out):
+    """`{name}` parts are evaluated over the CURRENT CALL's arguments: every parameter of the call, those left at their
+    default and those swallowed by *args / **kwargs included, under both wrappers"""
+    import typeguard
+    import jaxtyping
+    from impl import Duck
+    from jaxtyping import jaxtyped
+
+    F = jaxtyping.Float
+    for style, deco in (("none", jaxtyped(typechecker=None)), ("typeguard", jaxtyped(typechecker=typeguard.typechecked))):
+        @deco
+        def star(*xs, n=3):
+            return [impl.check_once(Duck((k,), "float32"), F[Duck, "{n}"]) for k in (n, n + 1)] + [impl.check_once(Duck((len(xs),), "float32"), F[Duck, "{len(xs)}"])]
+
+        @deco
+        def mixed(a, b=2, *rest, w=5, **kw):
+            return [impl.check_once(Duck((b, w), "float32"), F[Duck, "{b} {w}"]), impl.check_once(Duck((b + 1, w), "float32"), F[Duck, "{b} {w}"]),
+                    impl.check_once(Duck((len(rest) + len(kw),), "float32"), F[Duck, "{len(rest)}+{len(kw)}"])]
+
+        @deco
+        def plain(a, b=4):
+            return [impl.check_once(Duck((b,), "float32"), F[Duck, "{b}"]), impl.check_once(Duck((b,), "float32"), F[Duck, "{b}+1"])]
+
+        calls = [("star()", lambda: star(), ["T", "F", "T"]), ("star(1)", lambda: star(1), ["T", "F", "T"]), ("star(1, 2)", lambda: star(1, 2), ["T", "F", "T"]),
+                 ("star(1, 2, 3, n=2)", lambda: star(1, 2, 3, n=2), ["T", "F", "T"]), ("mixed(0)", lambda: mixed(0), ["T", "F", "T"]),
+                 ("mixed(0, 1, 7, 8, 9)", lambda: mixed(0, 1, 7, 8, 9), ["T", "F", "T"]), ("mixed(0, z=1, y=2, x=3, v=4)", lambda: mixed(0, z=1, y=2, x=3, v=4), ["T", "F", "T"]),
+                 ("mixed(0, 3, 9, w=1, q=0)", lambda: mixed(0, 3, 9, w=1, q=0), ["T", "F", "T"]), ("plain(1)", lambda: plain(1), ["T", "F"]), ("plain(1, 2)", lambda: plain(1, 2), ["T", "F"])]
+        for name, call, want in calls:
+            try:
+                got = call()
+            except BaseException as e:  # noqa: BLE001
+                got = ["RAISED:" + type(e).__name__]
+            out.case(("call-arguments", style, name), True, sample={"wrapper": style, "call": name, "verdicts": got})
+            if got != want:
+                out.violation(f"call-arguments:{style}", f"inside {name} (wrapper: {style}) the checks over the call's arguments give {got}, must give {want}",
+                              {"call_arguments": name, "wrapper": style})
+
+
 def run(tier, seed, out, drv, facts):
     rng = Rng(seed, "C01")
     thorough = tier == "thorough"
     oracle_symbolic(out)
+    call_argument_cases(out)
     # corpus first
     # 1. exhaustive small scope
     batch = []
@@ -271,5 +310,11 @@ def run(tier, seed, out, drv, facts):
 
 
 def replay(rep, out, drv, facts):
+    if "call_arguments" in rep:
+        call_argument_cases(out)
+        return
+    if "expr" in rep:
+        oracle_symbolic(out)
+        return
     hist = rep["history"]
     run_batch(out, drv, [(hist, rep.get("args") or {})], facts, "replay", use_numpy=rep.get("numpy", False))
